@@ -222,6 +222,17 @@ PROPS = {
              "identifier uniqueness or the at-most-one-datapoint clause (DuckDB evaluates the generated SQL).",
         note="Structure fields are assumed to change only through attribute stores / dict mutation (no setattr tricks exist). Known "
              "finding: fetch_result relabels Null-typed scalars from the DuckDB column type."),
+    "C24": dict(
+        claimed=True, design="§3 C24",
+        technique="writer/reader agreement between the ASTString renderer (specialised to pretty mode by branch pruning) and the grammar + AST constructor: typed field-read inventory vs constructed node classes, operator dispatch vs grammar alternative shapes (ANTLR .g4 reader), elided defaults vs downstream defaults, literal/name formatting vs lexer tokens (constant-folded reserved-word table, quote-provenance analysis of the constructor), taint rule for text rewriting, CFG set/reset pairing of rendering flags",
+        text="Decides the structural clauses of meaning preservation: prettify() loses no field of any node the parser can build; every "
+             "operator is written in the shape the grammar reads back; parameters omitted as defaults are the defaults assumed when absent; "
+             "numbers, booleans, nulls are written losslessly with the lexer's own spellings; every keyword is in the re-quoting table and "
+             "every name whose quotes the constructor strips is re-quoted; rendered text is never rewritten without regard to quotes; "
+             "comments are all attached and written verbatim; rendering flags cannot leak between statements. Found and repaired five "
+             "defects. Does not decide that the output parses and evaluates identically (the parser cannot run here).",
+        note="Grammar alternative <-> constructor method pairing relies on the ANTLR visitX naming / the constructor's ctx_id dispatch. "
+             "Names that need quotes without being reserved words (e.g. 'my ds') are not covered. Known finding: 3.0 is written 3."),
 }
 
 NA_REASONS = {
